@@ -142,6 +142,21 @@ func (cg *caseGen) cls() *pvcase.Expr {
 		// the empty class: matches nothing ([]) or everything ([^])
 		return mkClass(nil, nil, nil, cg.chance(0.2), cg.chance(0.4), cg.flags.BasicLatin)
 	}
+	if cg.chance(0.03) {
+		// a big class: dozens of ranges and single runes, written in no particular order and overlapping (the order of
+		// the members of a class means nothing)
+		for n := 19 + cg.r.IntN(30); n > 0; n-- {
+			r := cg.pick(cg.alpha)
+			if cg.chance(0.5) {
+				r = rune(0x20 + cg.r.IntN(0x250))
+			}
+			ranges = append(ranges, r, r+rune(cg.r.IntN(4)))
+		}
+		for n := cg.r.IntN(24); n > 0; n-- {
+			chars = append(chars, rune(0x21+cg.r.IntN(0x5e)))
+		}
+		return mkClass(chars, ranges, nil, cg.chance(0.2), cg.chance(0.3), cg.flags.BasicLatin)
+	}
 	for len(chars)+len(ranges)+len(classes) == 0 {
 		if cg.chance(0.6) {
 			for n := 1 + cg.r.IntN(3); n > 0; n-- {
@@ -521,6 +536,61 @@ func (cg *caseGen) rec(cx ectx) (*pvcase.Expr, bool) {
 			rexp = un(pvcase.KAct, seqOf(rest, &pvcase.Expr{Kind: pvcase.KAndc}))
 		}
 		return &pvcase.Expr{Kind: pvcase.KRec, Kids: []*pvcase.Expr{body, rexp}, Labels: labels}, true
+	}
+	if !cx.inRecover && cg.chance(0.3) {
+		// a forest of recovery operators over three labels: siblings of EQUAL nesting depth, each a chain of operators
+		// with different label lists around a throw of one and the same label T, the innermost operator never listing
+		// T (so that every throw has to search the handler stack). Which handler a throw reaches depends on the
+		// CONTENTS of the stack at that moment - not on its depth, and not on what an earlier throw found at that depth.
+		pool := []string{"L1", "L2", "L3"}
+		t := pool[cg.r.IntN(3)]
+		other := func() string {
+			for {
+				if l := pool[cg.r.IntN(3)]; l != t {
+					return l
+				}
+			}
+		}
+		rcv := func() *pvcase.Expr {
+			switch cg.r.IntN(3) {
+			case 0:
+				return cg.nonEmptyLit() // usually fails: the throw goes on to the next handler
+			case 1:
+				return cg.cls()
+			}
+			return un(pvcase.KStar, cg.nonEmptyLit()) // always recovers
+		}
+		depth := 1 + cg.r.IntN(3)
+		chain := func() *pvcase.Expr {
+			thr := &pvcase.Expr{Kind: pvcase.KThr, Label: t}
+			var e *pvcase.Expr = seqOf(cg.nonEmptyLit(), thr)
+			if cg.chance(0.4) {
+				ch := cg.newChoice()
+				ch.Kids = []*pvcase.Expr{seqOf(cg.nonEmptyLit(), thr), cg.nonEmptyLit()}
+				e = ch
+			}
+			for d := 0; d < depth; d++ {
+				l := []string{other()}
+				if d > 0 && cg.chance(0.5) {
+					l = []string{t}
+				}
+				e = &pvcase.Expr{Kind: pvcase.KRec, Kids: []*pvcase.Expr{e, rcv()}, Labels: l}
+			}
+			return e
+		}
+		var sib []*pvcase.Expr
+		for n := 2 + cg.r.IntN(2); n > 0; n-- {
+			if cg.chance(0.3) {
+				sib = append(sib, un(pvcase.KOpt, chain()))
+			} else {
+				sib = append(sib, chain())
+			}
+		}
+		outer := []string{t}
+		if cg.chance(0.2) {
+			outer = []string{other()}
+		}
+		return &pvcase.Expr{Kind: pvcase.KRec, Kids: []*pvcase.Expr{seqOf(sib...), rcv()}, Labels: outer}, false
 	}
 	if cg.f.memoShapes && cg.chance(0.35) {
 		// two throw sites of one label at the same offset under one handler, the recovery expression failing the first
